@@ -335,6 +335,21 @@ theorem pollHandler_le (e : Env) : ∀ (fuel : Nat) (h : HFut) (w : World),
     · split
       · exact le_upd (ih _ _) rfl rfl rfl rfl
       · exact ih _ _
+    · -- tryRead
+      split
+      · exact ih _ _
+      · split
+        · next w' hn =>
+          have := chanPollNext_le w h.rid .conn; rw [hn] at this; exact this.trans (ih _ _)
+        · next w' hn =>
+          have := chanPollNext_le w h.rid .conn; rw [hn] at this; exact this.trans (ih _ _)
+        · next w' hn =>
+          have := chanPollNext_le w h.rid .conn; rw [hn] at this
+          exact this.trans ((dropReader_le _ _).trans (ih _ _))
+    · -- waitConsumer
+      split
+      · exact ih _ _
+      · exact World.Le.of_eq rfl rfl rfl rfl
 
 theorem pollBody_le : ∀ (fuel : Nat) (b : BFut) (w : World), w.Le (pollBody fuel b w).2.2 := by
   intro fuel
@@ -1295,5 +1310,93 @@ theorem lingerLoop_pending_linger (e : Env) : ∀ (fuel : Nat) (d : D) (w : Worl
         · rcases ih _ _ _ _ h with h1 | h1
           · exact Or.inl (h1.trans hl)
           · exact Or.inr h1
+
+
+/-! ### the payload channel wakes the task that polled it last (`Inner::register`, will_wake) -/
+
+theorem chan_setChan (w : World) (rid : Nat) (c : Chan) (h : rid < w.chans.length) :
+    (w.setChan rid c).chan rid = c := by
+  simp [World.chan, World.setChan, List.getD, h]
+
+theorem setChan_length (w : World) (rid : Nat) (c : Chan) :
+    (w.setChan rid c).chans.length = w.chans.length := by
+  simp [World.setChan]
+
+theorem chanWakeIo_chan (w : World) (rid : Nat) (h : rid < w.chans.length) :
+    ((chanWakeIo w rid).chan rid).task = (w.chan rid).task ∧
+    ((chanWakeIo w rid).chan rid).readerAlive = (w.chan rid).readerAlive := by
+  unfold chanWakeIo
+  simp only
+  split
+  · have : rid < ({ w with woken := true } : World).chans.length := h
+    rw [chan_setChan _ _ _ this]
+    exact ⟨rfl, rfl⟩
+  · exact ⟨rfl, rfl⟩
+
+theorem chanWakeIo_length (w : World) (rid : Nat) :
+    (chanWakeIo w rid).chans.length = w.chans.length := by
+  unfold chanWakeIo
+  simp only
+  split
+  · simp [World.setChan]
+  · rfl
+
+theorem chanPollNext_length (w : World) (rid : Nat) (who : Who) :
+    (chanPollNext w rid who).2.chans.length = w.chans.length := by
+  unfold chanPollNext
+  simp only
+  split
+  · rw [chanWakeIo_length, setChan_length]
+  · split
+    · rw [setChan_length]
+    · split
+      · rfl
+      · rw [chanWakeIo_length, setChan_length]
+
+/-- after a `poll_next` that returned `Pending`, the stored reader waker is the poller's —
+whatever waker was stored before (`register` replaces a waker that would not wake the caller) -/
+theorem chanPollNext_registers (w : World) (rid : Nat) (who : Who) (h : rid < w.chans.length)
+    (hp : (chanPollNext w rid who).1 = .pending) :
+    ((chanPollNext w rid who).2.chan rid).task = some who ∧
+    ((chanPollNext w rid who).2.chan rid).readerAlive = (w.chan rid).readerAlive := by
+  unfold chanPollNext at hp ⊢
+  simp only at hp ⊢
+  split
+  · next hi => simp [hi] at hp
+  · next hi =>
+    simp only [hi] at hp
+    split
+    · next he => simp [he] at hp
+    · next he =>
+      simp only [he] at hp
+      split
+      · next hf => simp [hf] at hp
+      · have hl : rid < (w.setChan rid { w.chan rid with needRead := true, task := some who }).chans.length := by
+          rw [setChan_length]; exact h
+        obtain ⟨h1, h2⟩ := chanWakeIo_chan _ rid hl
+        rw [h1, h2, chan_setChan _ _ _ h]
+        exact ⟨rfl, rfl⟩
+
+/-- the wake flag of task `who` -/
+def wokenOf (who : Who) (w : World) : Bool :=
+  match who with
+  | .conn => w.woken
+  | .consumer => w.consumerWoken
+
+theorem chanWake_wakes (w : World) (rid : Nat) (who : Who) (ht : (w.chan rid).task = some who) :
+    wokenOf who (chanWake w rid) = true := by
+  unfold chanWake
+  simp only [ht]
+  cases who <;> rfl
+
+/-- `feed_data` wakes exactly the task whose waker is stored -/
+theorem feedData_wakes (w : World) (rid n : Nat) (who : Who) (h : rid < w.chans.length)
+    (ha : (w.chan rid).readerAlive = true) (ht : (w.chan rid).task = some who) :
+    wokenOf who (feedData w rid n) = true := by
+  unfold feedData
+  simp only [ha, Bool.not_true, Bool.false_eq_true, if_false]
+  apply chanWake_wakes
+  rw [chan_setChan _ _ _ h]
+  exact ht
 
 end ActixModel.DispWake
